@@ -1,8 +1,9 @@
 #!/bin/sh
-# Run every check (tier $1, seed $2) and print one summary line per check.
+# Run every check (tier $1, seed $2; optionally only the properties listed in $3) and print one summary line per check.
 tier=${1:-quick}; seed=${2:-0}
+props=${3:-"C01 C02 C03 C04 C05 C06 C07 C08 C09 C10 C11 C12 C13 C14 C15 C16 C17 C18 C19 C20"}
 cd "$(dirname "$0")/.."
-for p in C01 C02 C03 C04 C05 C06 C07 C08 C09 C10 C11 C12 C13 C14 C15 C16 C17 C18 C19 C20; do
+for p in $props; do
   start=$(date +%s)
   out=$(VERIF_SEED=$seed python3 run_check.py $p --tier $tier 2>&1)
   rc=$?
